@@ -18,7 +18,8 @@ IndSmall == {<<>>, <<" ">>, <<" ", " ">>, <<"\t">>, <<" ", " ", " ", " ">>, <<"\
 IndBig == IndSmall \cup {<<" ", " ", " ", " ", " ", " ">>, <<" ", " ", " ", " ", " ", " ", " ", " ">>, <<"\t", "\t">>, <<" ", " ", " ", " ", " ", " ", " ", " ", " ", " ", " ", " ">>}
 NoFirst == {<<>>}
 \* text on the opening line: plain, and the @module forms ("@" stands for the literal "@module")
-SomeFirst == {<<>>, <<" ", "a">>, <<" ", "@">>, <<" ", "@", " ", "a">>, <<"a", "a">>}
+SomeFirst == {<<>>, <<" ", "a">>, <<" ", "@">>, <<" ", "@", " ", "a">>, <<"a", "a">>,
+              <<"a", " ", "a">>, <<" ", "a", "\t", "a">>}       \* text with a blank / a tab inside: what the indentation consists of
 Hash == {"hash"}
 BothLeaders == {"hash", "none"}
 NoDev == {}
